@@ -41,11 +41,12 @@ def _run(shard, nshards):
         max_nodes, max_links = (4, 3) if tier == "quick" else (4, 5)
         idx = 0
         for nn in range(2, max_nodes + 1):
-            nodes = ["n%d" % i for i in range(nn)]
+            # names that contain the prefixes the function uses internally ('N_' + node, 'L_' + link), at the start and in the middle
+            nodes = [("N_%d", "MAIN_%d", "n%d", "xL_%d")[i % 4] % i for i in range(nn)]
             pairs = list(itertools.combinations(nodes, 2))
             for nl in range(1, max_links + 1):
                 for combo in itertools.combinations_with_replacement(pairs, nl):       # multisets of node pairs: parallel links included
-                    links = [("l%d" % i, a, b) for i, (a, b) in enumerate(combo)]
+                    links = [(("L_%d", "WELL_%d", "l%d", "N_%d", "xN_L_%d")[i % 5] % i, a, b) for i, (a, b) in enumerate(combo)]
                     inc = [(l, n) for l, a, b in links for n in (a, b)]
                     for mask in range(1 << len(inc)):
                         idx += 1
@@ -65,8 +66,15 @@ def _run(shard, nshards):
                         evals += 1
                         distinct.add((nn, combo, mask))
                         ref = _reference(nodes, links, set(valves))
-                        lab = {("N", n): int(ns[n]) for n in nodes}
-                        lab.update({("L", l): int(ls[l]) for l, a, b in links})
+                        try:
+                            lab = {("N", n): int(ns[n]) for n in nodes}
+                            lab.update({("L", l): int(ls[l]) for l, a, b in links})
+                        except KeyError as e:
+                            failures.append(dict(nodes=nodes, links=links, valves=valves, problem="the result is not indexed by the node / link names: %r is missing" % (e.args[0],),
+                                                 node_index=list(ns.index), link_index=list(ls.index)))
+                            if len(failures) > 20:
+                                break
+                            continue
                         ok = all(v >= 1 for v in lab.values())
                         elems = list(lab)
                         for x, y in itertools.combinations(elems, 2):
@@ -96,7 +104,7 @@ def _run(shard, nshards):
                         # valve_segment_attributes
                         if ok and valves:
                             demand = pd.Series({n: float(i + 1) for i, n in enumerate(nodes)})
-                            length = pd.Series({l: 10.0 * (i + 1) for i, (l, a, b) in enumerate(links)})
+                            length = pd.Series({l: (0.0 if i % 2 == 1 else 10.0 * (i + 1)) for i, (l, a, b) in enumerate(links)})     # pumps and valves have no length
                             attr = wntr.metrics.valve_segment_attributes(vl, ns, ls, demand=demand, length=length)
                             for vi, (l, n) in enumerate(valves):
                                 s_l, s_n = lab[("L", l)], lab[("N", n)]
@@ -115,7 +123,7 @@ def _run(shard, nshards):
                                     want = (len(bound) - 1, 0.0 if dn == 0 and dl == 0 else (dn + dl) / max(dn, dl) - 1,
                                             0.0 if ln_ == 0 and ll == 0 else (ln_ + ll) / max(ln_, ll) - 1)
                                 got = (int(attr.loc[vi, "num_surround"]), float(attr.loc[vi, "demand_increase"]), float(attr.loc[vi, "length_increase"]))
-                                if got[0] != want[0] or abs(got[1] - want[1]) > 1e-12 or abs(got[2] - want[2]) > 1e-12:
+                                if got[0] != want[0] or not (abs(got[1] - want[1]) <= 1e-12) or not (abs(got[2] - want[2]) <= 1e-12):      # (NaN must not pass)
                                     ok = False
                                     failures.append(dict(nodes=nodes, links=links, valves=valves, valve=vi, attributes=got, expected=want))
                                     break
